@@ -764,9 +764,20 @@ def _add_flows_checks(rng, tier):
     with _quiet():
         cfg = RailsConfig.from_content(colang_content="flow main\n  match Never()\n", yaml_content="colang_version: 2.x\n")
         rt = RuntimeV2_x(cfg)
-    for i, k in enumerate(kernels[::step]):
+    picked = kernels[::step]
+    payloads = []
+    for i, k in enumerate(picked):
         body = "\n".join("  " + l for l in ["match Start()"] + k)
-        src = "flow dyn%d\n%s\n" % (i, body)
+        payloads.append("flow dyn%d\n%s\n" % (i, body))
+    # several flows registered by ONE call, the structured one first / last / in the middle
+    linear = "flow lin%d\n  match Start()\n  send Done%d()\n"
+    for i, k in enumerate(picked[::3]):
+        body = "\n".join("  " + l for l in ["match Start()"] + k)
+        a = "flow multi%d\n%s\n" % (i, body)
+        payloads.append(a + "\n" + linear % (i, i))
+        payloads.append(linear % (i, i) + "\n" + a)
+        payloads.append(linear % (i, i) + "\n" + a + "\n" + linear % (1000 + i, 1000 + i))
+    for i, src in enumerate(payloads):
         state = State(flow_states={}, flow_configs=dict(rt.flow_configs), rails_config=cfg)
         try:
             with _quiet():
@@ -783,8 +794,9 @@ def _add_flows_checks(rng, tier):
             probs = _v2_problems(fc.elements, fc.element_labels, _count_loop_jumps(fc.elements))
             if probs:
                 rec.fail("flow `%s` added at run time:\n%s" % (fid, src), "; ".join(probs[:4]))
-    yield rec.record("%d of the enumerated 2.x kernels (if/elif/else, while with break/continue, when, and/or groups) added one by one through "
-                     "the real AddFlowsAction handler to an initialised state; flows the parser rejects are skipped" % len(kernels[::step]))
+    yield rec.record("%d payloads: %d of the enumerated 2.x kernels (if/elif/else, while with break/continue, when, and/or groups) added one by one, "
+                     "and every third of them together with one or two linear flows in ONE call (structured flow first / last / in the middle), "
+                     "through the real AddFlowsAction handler to an initialised state; flows the parser rejects are skipped" % (len(payloads), len(picked)))
 
 
 def _recompile_checks(rng, tier):
